@@ -55,7 +55,7 @@ def main():
             results.append({"patch": name, "outcome": "caught" if c.returncode == 1 and "VIOLATION property=%s" % pid in c.stdout else "missed",
                             "first_report": (lines[0][:240] if lines else None)})
         # negative controls: behaviour-preserving refactors (benign/*.diff) must leave the check silent
-        for p in sorted(glob.glob(os.path.join(VERIF, "benign", "b0[13456]_*.diff"))):
+        for p in sorted(glob.glob(os.path.join(VERIF, "benign", "b0[134567]_*.diff"))):
             subprocess.run(["git", "-C", W, "checkout", "-q", "--", "."])
             subprocess.run(["git", "-C", W, "clean", "-fdq"])
             if base.strip():
